@@ -211,6 +211,25 @@ func (dc *dataChunk) beginGCWriting(srcChunk int) (err error) {
 	return
 }
 
+// dropStaleTail is called when GC has finished rewriting this file in place:
+// what is left of its old content beyond the write head is cut off at once.
+// Otherwise records of later files get appended in front of that stale tail and,
+// if the process dies before the final truncate, recovery (last record in file
+// order wins) lets a stale older version override a newer one moved in below it.
+func (dc *dataChunk) dropStaleTail() {
+	if !dc.rewriting || dc.writingHead >= dc.size {
+		return
+	}
+	// the file itself stays (the GC writer still has it open and goes on
+	// appending at the write head), even if nothing of it was kept
+	vhook.FS(vhook.Before, "truncate", dc.path, int64(dc.writingHead), 0)
+	if err := os.Truncate(dc.path, int64(dc.writingHead)); err != nil {
+		logger.Errorf("truncate %s to %d: %v", dc.path, dc.writingHead, err)
+	}
+	vhook.FS(vhook.After, "truncate", dc.path, int64(dc.writingHead), 0)
+	dc.size = dc.writingHead
+}
+
 func (dc *dataChunk) endGCWriting() (err error) {
 	logger.Infof("endGCWriting chunk %d rewrite %v size %d wsize%d ", dc.chunkid, dc.rewriting, dc.size, dc.writingHead)
 	if dc.gcWriter != nil {
@@ -218,7 +237,8 @@ func (dc *dataChunk) endGCWriting() (err error) {
 		dc.gcWriter.Close()
 		dc.gcWriter = nil
 	}
-	if dc.rewriting && dc.writingHead < dc.size {
+	if dc.rewriting && (dc.writingHead < dc.size || dc.writingHead == 0) {
+		// (writingHead == 0: dropStaleTail left an empty file behind, remove it)
 		dc.Truncate(dc.writingHead)
 		dc.size = dc.writingHead
 	}
